@@ -102,7 +102,11 @@ func (m *model) onStep(st crashrig.Step) {
 	if st.Err != nil && !crashrig.IsNotFound(st.Err) {
 		return
 	}
-	a := st.Addrs[0]
+	m.complete(st.Addrs[0])
+}
+
+// complete records a completed removal (rig lock held).
+func (m *model) complete(a oid.Address) {
 	if !regular(a) {
 		return
 	}
@@ -258,7 +262,16 @@ func TestC09Removed(t *testing.T) {
 			}
 		}
 		depth := 0
-		w.OnOp = func(op crashrig.Op, phase string, _ error) {
+		// Operation-level completion (independent of the taps, so that a removal
+		// that forgets a component step still counts as completed): a GC pass
+		// completes the removal of everything the metabase listed as garbage
+		// right before it; a direct Delete that returned nil completes the
+		// removal of an object the metabase knew.
+		var (
+			gcInput  [][]oid.Address
+			delKnown []bool
+		)
+		w.OnOp = func(op crashrig.Op, phase string, opErr error) {
 			r.Lock()
 			defer func() {
 				r.Unlock()
@@ -279,7 +292,36 @@ func TestC09Removed(t *testing.T) {
 					delete(m.raced, a)
 					delete(m.resynced, a)
 				}
+				switch op.Kind {
+				case crashrig.KGC:
+					var in []oid.Address
+					bins, err := r.Sh.VerifMetabase().GetGarbage(100)
+					if err != nil {
+						ev.Inconclusive("C09: GetGarbage: %v", err)
+					}
+					for _, b := range bins {
+						for _, id := range b.Objects {
+							in = append(in, oid.NewAddress(b.Container, id))
+						}
+					}
+					gcInput = append(gcInput, in)
+				case crashrig.KDel:
+					ok, err := r.Sh.VerifMetabase().Exists(crashrig.RegAddr(op.C, op.I), true)
+					delKnown = append(delKnown, ok || err != nil)
+				}
 				return
+			}
+			switch op.Kind {
+			case crashrig.KGC:
+				for _, a := range gcInput[len(gcInput)-1] {
+					m.complete(a)
+				}
+				gcInput = gcInput[:len(gcInput)-1]
+			case crashrig.KDel:
+				if delKnown[len(delKnown)-1] && opErr == nil {
+					m.complete(crashrig.RegAddr(op.C, op.I))
+				}
+				delKnown = delKnown[:len(delKnown)-1]
 			}
 			m.kinds = m.kinds[:len(m.kinds)-1]
 			if m.cur() != crashrig.KRace {
